@@ -136,6 +136,12 @@ pub fn gen_tree(r: &mut Rng, index: usize) -> GenTree {
         t.classes.insert(c);
     };
     fn content(r: &mut Rng) -> Vec<u8> {
+        // now and then a large incompressible file (larger than the 32 KiB
+        // windows / buffers of the deflate decoder)
+        if !cfg!(miri) && r.chance(1, 16) {
+            let n = r.range(40_000, 300_000);
+            return r.bytes(n);
+        }
         match r.below(6) {
             0 => vec![],
             1 => vec![0],
